@@ -77,6 +77,11 @@ def oracle(line: str, obs: Obs):
                 else:
                     c, d = outs[0]
                     hbh = int(d["hbh"])
+                    want_app = m["app"] or cfg["apps"][ai]["id"]
+                    if int(d["app"]) != want_app or (m["e2e"] and int(d["e2e"]) != m["e2e"]) or int(d["e2e"]) == 0:
+                        fails.append({"what": "identifiers of the request as written: the caller's application id / end-to-end id "
+                                              "are kept when given, else the application's id and a fresh non-zero end-to-end id",
+                                      "event": ev[:200], "real": str(d), "expected": f"app={want_app}"})
                     if hbh == 0 or hbh in outstanding.get(c, set()):
                         fails.append({"what": "hop-by-hop identifier zero or not unique among the requests outstanding on the connection",
                                       "event": ev[:200], "real": str(d)})
@@ -147,7 +152,8 @@ def scenarios(rng: random.Random, tier: str):
             ai = rng.choice([0, 0, 1, 2])
             realm = rng.choice(["realm.local", "realm.local", "realm2.local", "nowhere.local", "realm3.local"])
             e2e = rng.choice([0, 0, n()])
-            msg = nodegen.ccr(0, e2e, "node.local", realm)
+            # (a request whose header carries no application id gets the application's)
+            msg = nodegen.ccr(0, e2e, "node.local", realm, app=rng.choice([4, 4, 0]))
             wait = []
             k = rng.random()
             # the harness cannot know the hop-by-hop id the node will draw; answers are scripted from the
